@@ -35,6 +35,7 @@ type vfPHRule struct {
 	Lead string   `json:"lead"`
 	B    []int    `json:"b"`
 	Bits int      `json:"bits"`
+	J    string   `json:"j,omitempty"` // k == "junk": which kind of item that is none of the documented forms
 }
 
 type vfPHHost struct {
@@ -118,8 +119,29 @@ func vfPHName(l []string, sp string) string {
 	return s
 }
 
+// AddFromString items that are none of the documented forms (spec: PerHost header, kind "junk")
+var vfPHJunk = map[string][]string{
+	"cidr33":     {"10.0.0.0/33", "2001:db8::/129", "192.168.1.0/-1", "10.1.2.3/0x8"},
+	"cidrab":     {"a/b", "x/24", "10.0.0/8"},
+	"cidrnobits": {"1.2.3.4/", "2001:db8::/"},
+	"cidrnoaddr": {"/8", "/"},
+	"cidrzone":   {"fe80::1%en0/10", "fe80::%eth0/64"},
+	"path":       {"example.com/path", "localhost/", "www.example.com/24"},
+	"empty":      {""},
+	"space":      {" ", "\t", "  \t "},
+	"stardot":    {"*."},
+	"dot":        {"."},
+	"star":       {"*"},
+}
+
 func vfPHRuleString(r vfPHRule, rnd *rand.Rand) string {
 	switch r.K {
+	case "junk":
+		alt, ok := vfPHJunk[r.J]
+		if !ok {
+			panic("driver: unknown junk kind " + r.J)
+		}
+		return alt[rnd.Intn(len(alt))]
 	case "ip":
 		return vfPHIP(r.B, rnd)
 	case "net":
@@ -150,7 +172,8 @@ func vfPHConfigure(p *PerHost, rules []vfPHRule, rnd *rand.Rand) (shown []string
 				batch = append(batch, sp[rnd.Intn(len(sp))]) // empty list item
 			}
 			batch = append(batch, sp[rnd.Intn(len(sp))]+vfPHRuleString(r, rnd)+sp[rnd.Intn(len(sp))])
-			if rnd.Intn(2) == 0 {
+			// an item that has to be skipped stays in one string with the item that follows it
+			if r.K != "junk" && rnd.Intn(2) == 0 {
 				flush()
 			}
 			continue
@@ -413,6 +436,14 @@ func vfPHRecord(t *testing.T, env *vfEnv) {
 				}
 				hosts = append(hosts, vfPHHost{K: "name", L: append(randName(2), r.L...), Sp: r.Sp, B: []int{}},
 					vfPHHost{K: "name", L: r.L, Sp: sps[rnd.Intn(len(sps))], B: []int{}})
+			}
+			if rnd.Intn(5) == 0 { // an item AddFromString has to skip, in front of this rule
+				kinds := []string{"cidr33", "cidrab", "cidrnobits", "cidrnoaddr", "cidrzone", "path", "empty", "space"}
+				rules = append(rules, vfPHRule{K: "junk", Via: "str", L: []string{}, Sp: "l", B: []int{}, J: kinds[rnd.Intn(len(kinds))]})
+				r.Via = "str"
+				if r.K == "zone" {
+					r.Lead = "."
+				}
 			}
 			rules = append(rules, r)
 		}
